@@ -176,6 +176,22 @@ def observe(case):
         sleeps.append(d)
 
     def go():
+        if case.get('in_except'):
+            # the request is made while the caller is handling an unrelated exception (inside an `except` block)
+            if is_async:
+                async def inner():
+                    try:
+                        raise LookupError('unrelated, being handled by the caller')
+                    except LookupError:
+                        return await go_plain()
+                return inner()
+            try:
+                raise LookupError('unrelated, being handled by the caller')
+            except LookupError:
+                return go_plain()
+        return go_plain()
+
+    def go_plain():
         if req_kind == 'batch':
             breq = pjrpc.BatchRequest(pjrpc.Request('m', [1], id=1))
             if kwargs.get('_retry_strategy', 'x') == 'x' and '_retry_strategy' not in kwargs:
